@@ -175,6 +175,8 @@ type State struct {
 	allocHook     func(ex *Exec, st *State, n *Term, elem types.Type, why string) bool
 	poolAdversarial bool
 	allocLimit      int
+	concreteClock   bool
+	noAutoFire      bool
 	appendHook      func(ex *Exec, st *State, newCap int)
 }
 
